@@ -310,11 +310,15 @@ def client_writes(fs):
     return out, problems
 
 
-def run_stream(specs, cuts=(), driver="data_frame", cf=False, fire=False, skip=False, script_extra=None, resume=False):
+def run_stream(specs, cuts=(), driver="data_frame", cf=False, fire=False, skip=False, script_extra=None, resume=False, flags_as_int=False):
     """Build ws over the segmented wire, drive it, return (events, ws, fs, frames, ends, wire)."""
     wire, frames, ends = wire_of(specs)
     script = split_at(wire, cuts) if script_extra is None else script_extra(wire)
-    ws, fs = make_ws(script, fire_cont_frame=fire, skip_utf8_validation=skip)
+    if flags_as_int:
+        # the same options given as 0 / 1 (a value read from a configuration) instead of False / True
+        ws, fs = make_ws(script, fire_cont_frame=int(bool(fire)), skip_utf8_validation=int(bool(skip)))
+    else:
+        ws, fs = make_ws(script, fire_cont_frame=fire, skip_utf8_validation=skip)
     events = drive(ws, fs, driver, cf, resume=resume)
     return events, ws, fs, frames, ends, wire
 
